@@ -22,12 +22,13 @@ macro_rules! bezier_impl_any {
         impl<T: Real> $Bezier<T> {
             /// Gets the Axis-Aligned Bounding Box for this curve.
             pub fn aabb(self) -> Aabb<T> {
+                // NOTE: *_bounds() return evaluation factors, not coordinates.
                 let (min_x, max_x) = self.x_bounds();
                 let (min_y, max_y) = self.y_bounds();
                 let (min_z, max_z) = self.z_bounds();
                 Aabb {
-                    min: Vec3::new(min_x, min_y, min_z),
-                    max: Vec3::new(max_x, max_y, max_z),
+                    min: Vec3::new(self.evaluate(min_x).x, self.evaluate(min_y).y, self.evaluate(min_z).z),
+                    max: Vec3::new(self.evaluate(max_x).x, self.evaluate(max_y).y, self.evaluate(max_z).z),
                 }
             }
             /// Returns this curve, flipping the `y` coordinate of each of its points.
@@ -119,11 +120,12 @@ macro_rules! bezier_impl_any {
             ///
             /// On 3D curves, this discards the `z` values.
             pub fn aabr(self) -> Aabr<T> {
+                // NOTE: *_bounds() return evaluation factors, not coordinates.
                 let (min_x, max_x) = self.x_bounds();
                 let (min_y, max_y) = self.y_bounds();
                 Aabr {
-                    min: Vec2::new(min_x, min_y),
-                    max: Vec2::new(max_x, max_y),
+                    min: Vec2::new(self.evaluate(min_x).x, self.evaluate(min_y).y),
+                    max: Vec2::new(self.evaluate(max_x).x, self.evaluate(max_y).y),
                 }
             }
             /// Returns this curve, flipping the `x` coordinate of each of its points.
